@@ -222,6 +222,38 @@ def build_pool() -> dict:
                 "12345678", "ABCD1234", "٣ENODEM1GLS"],
     }
 
+    # ---- seeded draws whose internal attempts fail at least once (retry path of BBAN.random) -------------
+    class _Counting(random.Random):
+        calls = 0
+
+        def choice(self, seq):
+            self.calls += 1
+            return super().choice(seq)
+
+        def randint(self, a, b):
+            self.calls += 1
+            return super().randint(a, b)
+
+    retry_cases = []
+    for key in sorted(k for k in checksum.algorithms if k.endswith(":default")):
+        cc = key.split(":", 1)[0]
+        if cc not in spec:
+            continue
+        for use_registry in (True, False):
+            counts = {}
+            for seed in range(40):
+                r = _Counting(seed)
+                try:
+                    IBAN.random(cc, random=r, use_registry=use_registry)
+                except Exception:  # noqa: BLE001
+                    pass
+                counts[seed] = r.calls
+            low = min(counts.values())
+            for seed, c in counts.items():
+                if c > low and len([1 for x in retry_cases if x[0] == cc and x[2] == use_registry]) < 3:
+                    retry_cases.append([cc, seed, use_registry, {}])
+    pool["retry_cases"] = retry_cases
+
     # ---- seeded random cases -------------------------------------------------------------------
     cases = []
     sample_cc = [""] + [countries[i] for i in range(0, len(countries), 3)] + ["DE", "PL", "SI", "NO", "MU", "SC", "GB", "FR", "ES", "IT"]
